@@ -120,6 +120,68 @@ def make_file(text, seek, tell, pos, content):
     return f
 
 
+class _Stream:
+    """file-like whose `read(n)` follows a *read script*: it never returns data across the end of a
+    piece (so it may return fewer than `n` items although more data follows, like a raw / unbuffered
+    stream); an empty piece is end-of-file.  The offset counts items (bytes / code points)."""
+
+    def __init__(self, pieces, pos, empty):
+        live = []
+        for p in pieces:
+            if not p:
+                break
+            live.append(p)
+        self._data = empty.join(live)
+        self._ends, k = [], 0
+        for p in live:
+            k += len(p)
+            self._ends.append(k)
+        self._pos = pos
+
+    def read(self, n=-1):
+        pos = self._pos
+        if pos >= len(self._data):
+            return self._data[:0]
+        end = next(e for e in self._ends if e > pos)
+        if n is not None and n >= 0:
+            end = min(end, pos + n)
+        self._pos = end
+        return self._data[pos:end]
+
+    def _tell(self):
+        return self._pos
+
+    def _seek(self, pos, whence=0):
+        if whence != 0:
+            raise OSError("unsupported")
+        self._pos = pos
+        return pos
+
+
+class _BinStream(_Stream):
+    def __init__(self, pieces, pos):
+        super().__init__(pieces, pos, b"")
+
+
+class _TextStream(_Stream, io.TextIOBase):
+    def __init__(self, pieces, pos):
+        io.TextIOBase.__init__(self)
+        _Stream.__init__(self, pieces, pos, "")
+
+
+def make_stream(text, seek, tell, pos, pieces):
+    """pieces: list of str for text streams, of bytes otherwise"""
+    f = _TextStream(pieces, pos) if text else _BinStream(pieces, pos)
+    for name, how in (("seek", seek), ("tell", tell)):
+        if how == "ok":
+            setattr(f, name, getattr(f, "_" + name))
+        elif how == "raises":
+            setattr(f, name, _raise_oserror)
+        else:
+            setattr(f, name, None)          # getattr(body, name, None) is None  == absent
+    return f
+
+
 def build_body(spec):
     """spec (JSON) -> (python object, protocol token, intended payload bytes or None if unencodable)"""
     k = spec[0]
@@ -145,6 +207,18 @@ def build_body(spec):
         obj = make_file(text, seek, tell, pos, c)
         pay = _utf8(c[pos:]) if text else c[pos:]
         return obj, f"F/{int(text)}/{seek}/{tell}/{pos}/" + enc(c), pay
+    if k == "stream":
+        text, seek, tell, pos, pieces = spec[1], spec[2], spec[3], spec[4], spec[5]
+        ps = list(pieces) if text else [bytes.fromhex(p) for p in pieces]
+        obj = make_stream(text, seek, tell, pos, ps)
+        live = []
+        for p in ps:
+            if not p:
+                break
+            live.append(p)
+        whole = ("" if text else b"").join(live)
+        pay = _utf8(whole[pos:]) if text else whole[pos:]
+        return obj, f"R/{int(text)}/{seek}/{tell}/{pos}/" + (",".join(enc(p) for p in ps) if ps else "~"), pay
     if k == "iter":
         one, chunks = spec[1], spec[2]
         objs, toks, pay = [], [], b""
@@ -386,7 +460,11 @@ BODIES = [["none"], ["bytes", hx(b"abc")], ["bytes", hx(b"GET /x HTTP/1.1\r\nHos
           ["file", False, "ok", "ok", 0, hx(b"line1\r\n\r\nGET / HTTP/1.1\r\n\r\n")],
           ["file", True, "ok", "ok", 1, "h\xe9llo € w\U0001f600rld"],
           ["file", True, "ok", "ok", 0, "abcdefghijklmnopq\udc80rs"],
-          ["buf", "bytearray", 1, hx(b"\r\n\r\n")]]
+          ["buf", "bytearray", 1, hx(b"\r\n\r\n")],
+          # streams whose read() returns short (read script): a short read is not the end of the body
+          ["stream", False, "ok", "ok", 0, [hx(b"0\r\n"), hx(b"\r\n"), hx(b"GET /x HTTP/1.1\r\nHost: evil\r\n\r\n"), hx(b"z")]],
+          ["stream", True, "ok", "ok", 1, ["h\xe9", "l", "lo € w\U0001f600rld, seventeen+", "!"]],
+          ["stream", True, "ok", "absent", 0, ["abc", "defghijklmnopq", "\udc80rs"]]]
 
 
 class C10(Prop):
@@ -688,6 +766,8 @@ class C10(Prop):
         if b[0] == "iter" and any(c[0] == "s" and _utf8(c[1]) is None for c in b[2]):
             return "unencodable-str-chunk"
         if b[0] == "file" and b[1] and _utf8(b[5][b[4]:]) is None:
+            return "unencodable-text-file"
+        if b[0] == "stream" and b[1] and _utf8("".join(b[5])[b[4]:]) is None:
             return "unencodable-text-file"
         return "other"
 
